@@ -4,10 +4,12 @@ import Arc.Model.C29
 open Arc.Proto Arc.C29
 
 def fault? : String → Option Fault
-  | "none" => some .none | "agg" => some .agg | "ins" => some .recIns | "upd" => some .recUpd | _ => none
+  | "none" => some .none | "agg" => some .agg | "ins" => some .recIns | "upd" => some .recUpd
+  | "wr" => some .wr | _ => none
 
 def qkind? : String → Option QKind
-  | "plain" => some .plain | "grouped" => some .grouped | "broken" => some .broken | _ => none
+  | "plain" => some .plain | "grouped" => some .grouped | "broken" => some .broken
+  | "badtime" => some .badtime | _ => none
 
 /-- "-" absent | "e" empty | "bad" malformed | "<ns>:<offsetMinutes>" (the offset only affects the text) -/
 def timeArg? (s : String) : Option TimeArg :=
@@ -44,7 +46,8 @@ def b01 (b : Bool) : String := if b then "1" else "0"
 def execLine (st : State) (ev : Event) : String :=
   let w := match ev.win with | some (s, e) => s!"{s},{e}" | none => "-"
   let l := match ev.label with | some l => toString l | none => "-"
-  s!"{statusStr ev.kind ev.status} w={w} rows={rowsStr ev.rows} label={l} lp={optStr st.lp} rec={st.nCompleted}/{st.nFailed}"
+  let rw := if ev.reportedOk then toString ev.rows.length else "-"
+  s!"{statusStr ev.kind ev.status} w={w} rows={rowsStr ev.rows} rw={rw} label={l} lp={optStr st.lp} rec={st.nCompleted}/{st.nFailed}"
 
 def cfgLine (pre : String) (st : State) : String :=
   s!"{pre} lp={optStr st.lp} active={b01 st.active} job={b01 st.running}"
